@@ -14,7 +14,7 @@ Init == l = 1
 Next == l < Len(Obs) /\ l' = l + 1
 Why(R, kind, v) ==
   IF kind \in {"crash", "fatal"} THEN kind
-  ELSE IF kind = "int" /\ "int" \notin R.ks THEN "int-where-the-exact-result-does-not-fit"
+  ELSE IF kind = "int" /\ "int" \notin R.ks THEN "int-where-no-int-is-specified"
   ELSE IF kind = "int" THEN "wrong-int-value"
   ELSE IF kind = "float" /\ R.ks = {"int"} THEN "float-where-the-exact-int-fits"
   ELSE "kind"
